@@ -650,13 +650,14 @@ func init() {
 		Rule: "PRNG-generated sessions of the real netconf.Driver over devsim.Conn against the ncsim server model: 3-25 RPCs (profile 'long': 104-143, " +
 			"ids beyond 200) of 15 kinds plus 2 locally failing ones; per request the server replies now / late (held until the harness has seen the caller's " +
 			"timeout error, then released before / inside / together with / after later calls) / never; x {1.0,1.1} x {echo,no echo} x segmentation " +
-			"(fixed 1,3,17,4096, whole, geom, mix) x chunkings of 1.1 replies (incl. boundaries inside message-id=\"...\"). " +
+			"(fixed 1,3,17,4096, whole, geom, mix) x chunkings of 1.1 replies (incl. boundaries inside message-id=\"...\") x bodies that quote a foreign message-id=\"N\" as text. " +
 			"Non-trivial = the server saw >=3 requests and (a late reply had been delivered in full before a later call returned, or a verified success " +
 			"followed a timed-out call, or a verified success whose reply had a chunk boundary inside the message-id attribute). Distinct = descriptor hash.",
 		Assumptions: []string{
 			"one transport read never carries bytes of two server messages (message marks after every reply, released late reply and echoed request; quantifier of C08)",
 			"the server answers with message-id=\"N\" in double quotes, N the id of the request, and replies never precede the complete request",
-			"reply bodies and request arguments contain none of: ']]>]]>', '#', '</rpc>', 'message-id', 'subscription-id' (checked by brute force by the generator)",
+			"random reply bodies and request arguments contain none of: ']]>]]>', '#', '</rpc>', 'message-id', 'subscription-id' (checked by brute force by the generator); " +
+				"on purpose ~1/6 of the replies quote a message-id=\"N\" attribute as text inside the body (N a past id, the next id, a far id), always after the reply element's own attribute",
 			"an echoing transport echoes every client write verbatim and at once; replies interleave with the echo only between two client writes",
 			"a planned-now call that times out is a violation only if the complete reply had been delivered >= 1 s (net of observed scheduling stalls) before the 5 s deadline; otherwise inconclusive",
 			"late is logical: a held reply is released only after the harness observed the caller's timeout error (150 ms per-operation timeout)",
